@@ -1,6 +1,8 @@
 package mon
 
 import (
+	"sync"
+
 	rocksdb "github.com/facebookincubator/dns/dnsrocks/cgo-rocksdb"
 	"github.com/facebookincubator/dns/dnsrocks/dnsdata/rdb"
 )
@@ -87,4 +89,62 @@ func (f *FaultyRDBI) IngestSSTFiles(names []string, hardlinks bool) error {
 		return ErrInjected
 	}
 	return f.DBI.IngestSSTFiles(names, hardlinks)
+}
+
+// LowFault wraps the low-level handle of a RocksDB secondary. It tells the monitor the exact point
+// of every low-level catch-up call (that is when newly published data becomes visible), and fails
+// the call of the task it is armed for: the error surfaces inside rdb.RDB.CatchWithPrimary, after
+// the iterator pool was disabled.
+type LowFault struct {
+	rdb.DBI
+	M     *Monitor
+	mu    sync.Mutex
+	armed map[string]bool
+	fired map[string]bool
+}
+
+func (f *LowFault) arm(task string) {
+	f.mu.Lock()
+	if f.armed == nil {
+		f.armed, f.fired = map[string]bool{}, map[string]bool{}
+	}
+	f.armed[task] = true
+	delete(f.fired, task)
+	f.mu.Unlock()
+}
+
+func (f *LowFault) disarm(task string) bool {
+	f.mu.Lock()
+	defer f.mu.Unlock()
+	delete(f.armed, task)
+	hit := f.fired[task]
+	delete(f.fired, task)
+	return hit
+}
+
+// CatchWithPrimary implements rdb.DBI.
+func (f *LowFault) CatchWithPrimary() error {
+	task := ""
+	if f.M != nil {
+		task = f.M.y.TaskName()
+	}
+	f.mu.Lock()
+	hit := f.armed[task]
+	if hit {
+		delete(f.armed, task)
+		f.fired[task] = true
+	}
+	f.mu.Unlock()
+	if hit {
+		return ErrInjected
+	}
+	if f.M != nil {
+		f.M.mu.Lock()
+		if f.M.catchAt == nil {
+			f.M.catchAt = map[string]uint64{}
+		}
+		f.M.catchAt[task] = f.M.y.Seq()
+		f.M.mu.Unlock()
+	}
+	return f.DBI.CatchWithPrimary()
 }
